@@ -57,6 +57,9 @@ func (c *RowCollector) CollectResolvedRow(errChan chan<- error, origChan <-chan 
 		for m := range origChan {
 			if m.ColDiff != nil {
 				c.cd = m.ColDiff
+				// without primary key, rows are sorted and deduplicated on all
+				// columns, so the sorter needs to know the columns
+				c.resolvedRows.Columns = c.cd.Names
 			} else if m.Resolved {
 				err := c.SaveResolvedRow(m.PK, m.ResolvedRow)
 				if err != nil {
@@ -104,7 +107,12 @@ func (c *RowCollector) collectRowsThatStayedTheSame() error {
 		}
 		for _, row := range blk {
 			hash.Reset()
-			_, err := hash.Write(enc.Encode(slice.IndicesToValues(row, c.baseT.PK)))
+			if len(c.baseT.PK) > 0 {
+				_, err = hash.Write(enc.Encode(slice.IndicesToValues(row, c.baseT.PK)))
+			} else {
+				// without primary key a row is identified by its own hash
+				_, err = hash.Write(enc.Encode(row))
+			}
 			if err != nil {
 				return err
 			}
